@@ -57,6 +57,7 @@ def cfgs(tier, seed):
         out.append(dict(base, sweeper='generic_implicit', qd='LU', prob='dahlquist', n=1, M=[2], NP=1, maxiter=3, residual_type='full_rel'))
         out.append(dict(base, sweeper='generic_implicit', qd='LU', prob='dahlquist', n=1, M=[2], NP=2, maxiter=3, quad_type='GAUSS', jac=True))
         out.append(dict(base, sweeper='generic_implicit', qd='LU', prob='dahlquist', n=1, M=[3], NP=2, maxiter=2, quad_type='LOBATTO', jac=False))
+        out.append(dict(base, sweeper='generic_implicit', qd='LU', prob='dahlquist', n=1, M=[2], NP=3, maxiter=2, quad_type='GAUSS', jac=True))
         out.append(dict(base, sweeper='imex_1st_order', qd='IE', prob='dahlquist', n=2, M=[2, 1], NP=1, maxiter=3, predict=None))
         out.append(dict(base, sweeper='generic_implicit', qd='LU', prob='dahlquist', n=1, M=[3], NP=1, maxiter=3))
         out.append(dict(base, sweeper='explicit', qd='EE', prob='dahlquist', n=1, M=[2], NP=1, maxiter=5))
@@ -83,7 +84,14 @@ def cfgs(tier, seed):
                                             finter=(rng.random() < 0.3 and len(M) > 1), initial_guess=rng.choice(['spread', 'spread', 'zero', 'copy'])))
         rng.shuffle(out)
         # size filter: keep the cheap majority, at least 200 configurations
-        out = [c for c in out if c['NP'] * len(c['M']) * c['n'] <= 6][:240]
+        def ok(c):
+            if c.get('quad_type') in ('LOBATTO', 'RADAU-LEFT') and min(c['M']) < 2:
+                return False  # these rules need at least two nodes
+            if c['n'] >= 3 and (c['NP'] > 1 or len(c['M']) > 1):
+                return False  # three coupled unknowns only for single-step single-level runs (solver time, measured)
+            return c['NP'] * len(c['M']) * c['n'] <= 4
+
+        out = [c for c in out if ok(c)][:240]
     return out
 
 
@@ -132,7 +140,11 @@ def run_case(rep, cfg):
         return dict(posts=posts, Q=np.array(L.sweep.coll.Qmat), A=A, uend=sp.terms(uend), w=(None if copy_mode else np.array(L.sweep.coll.weights)))
 
     try:
-        paths = explore(fn, max_paths=3000, timeout_ms=120000)
+        paths = explore(fn, max_paths=3000, timeout_ms=(120000 if rep.tier == 'quick' else 600000))
+    except ZeroDivisionError:
+        # relative residual of an identically zero state: the real code divides by |u0| = 0 as well (outside the precondition)
+        rep.extra['zero_state_relative_residual_skipped'] = rep.extra.get('zero_state_relative_residual_skipped', 0) + 1
+        return
     except Exception as e:
         if 'coefficients' in str(e):
             return
@@ -215,8 +227,9 @@ def float_reference(cfg, x):
     out = []
     prev = np.asarray(x, dtype=float)
     for s in posts:
-        u0s = np.array([float(t.as_fraction()) if hasattr(t, 'as_fraction') else float(str(z3.simplify(t).as_decimal(17)).rstrip('?')) for t in s['u'][0]])
-        ue = np.array([float(str(z3.simplify(t).as_decimal(17)).rstrip('?')) for t in s['uend']])
+        tof = lambda t: (lambda v: v.numerator_as_long() / v.denominator_as_long())(z3.simplify(t))  # exact: the terms are numerals of floats
+        u0s = np.array([tof(t) for t in s['u'][0]])
+        ue = np.array([tof(t) for t in s['uend']])
         big = np.eye(M * n) - cfg['dt'] * np.kron(Q[1:, 1:], A)
         V = np.linalg.solve(big, np.kron(np.ones(M), u0s))
         copy_mode = bool(L.sweep.coll.right_is_node and not L.sweep.params.do_coll_update)
@@ -246,7 +259,12 @@ def triage(rep, cfg, m, xs, name, clause):
     if steps and not np.array_equal(uend, steps[-1]['uend']):
         bad.append(('returned-value',))
     if bad:
-        rep.violation(f'{PID}/{bad[0][0]}/{cfg["sweeper"]}/{"ml" if len(cfg["M"]) > 1 else "sl"}',
+        quad_end = cfg.get('quad_type', 'RADAU-RIGHT') in ('GAUSS', 'RADAU-LEFT')
+        if quad_end and cfg['NP'] >= 3 and all(b[0] in ('chaining', 'returned-value') for b in bad):
+            key = f'{PID}/chaining/quadrature-end-point/three-or-more-parallel-steps'
+        else:
+            key = f'{PID}/{bad[0][0]}/{cfg["sweeper"]}/{"ml" if len(cfg["M"]) > 1 else "sl"}'
+        rep.violation(key,
                       f'{name}: x={x}: {bad}', {'task': ['run'], 'cfg': cfg, 'x': x, 'violated': [list(map(str, b)) for b in bad]})
     else:
         rep.unreproduced(f'{name}:{clause}', {'x': x})
